@@ -72,8 +72,8 @@ type StreamCodec interface {
 }
 
 // readMore reads from r into the spare capacity of b, growing it if needed.
-// Data returned together with io.EOF is kept (the EOF is seen again on the
-// next read); an EOF while b holds part of a message is unexpected.
+// Data returned together with an error (such as io.EOF) is kept and the error
+// is left for the next read, as the io.Reader contract asks callers to do.
 func readMore(b []byte, r io.Reader) ([]byte, error) {
 	if len(b) == cap(b) {
 		// Add more capacity (let append pick how much).
@@ -81,13 +81,8 @@ func readMore(b []byte, r io.Reader) ([]byte, error) {
 	}
 	n, err := r.Read(b[len(b):cap(b)])
 	b = b[:len(b)+n]
-	if err == io.EOF {
-		if n > 0 {
-			return b, nil
-		}
-		if len(b) > 0 {
-			return b, io.ErrUnexpectedEOF
-		}
+	if n > 0 {
+		err = nil
 	}
 	return b, err
 }
@@ -131,6 +126,9 @@ func (c CodecProto) ReadNext(b []byte, r io.Reader, limit int) ([]byte, int, err
 		for i >= len(b) {
 			var err error
 			if b, err = readMore(b, r); err != nil {
+				if err == io.EOF && len(b) > 0 {
+					err = io.ErrUnexpectedEOF // inside the size prefix
+				}
 				return b, 0, err
 			}
 		}
@@ -223,8 +221,8 @@ func (c CodecJSON) ReadNext(b []byte, r io.Reader, limit int) ([]byte, int, erro
 		for i >= len(b) {
 			var err error
 			if b, err = readMore(b, r); err != nil {
-				if err == io.ErrUnexpectedEOF && braceCount == 0 && len(bytes.TrimSpace(b)) == 0 {
-					err = io.EOF // only whitespace after the last object
+				if err == io.EOF && len(bytes.TrimSpace(b)) > 0 {
+					err = io.ErrUnexpectedEOF // inside an object
 				}
 				return b, 0, err
 			}
@@ -288,16 +286,11 @@ func (codecHTTPBody) Name() string { return "body" }
 func (codecHTTPBody) ReadNext(b []byte, r io.Reader, limit int) ([]byte, int, error) {
 	// b may already hold data carried over from the previous call.
 	for limit <= 0 || len(b) < limit {
-		if len(b) == cap(b) {
-			// Add more capacity (let append pick how much).
-			b = append(b, 0)[:len(b)]
-		}
-		n, err := r.Read(b[len(b):cap(b)])
-		b = b[:len(b)+n]
-		if err == io.EOF && len(b) > 0 {
-			break // final chunk, EOF is reported by the next call
-		}
-		if err != nil {
+		var err error
+		if b, err = readMore(b, r); err != nil {
+			if err == io.EOF && len(b) > 0 {
+				break // final chunk, EOF is reported by the next call
+			}
 			return b, 0, err
 		}
 	}
